@@ -304,7 +304,7 @@ func TestVerifC07(t *testing.T) {
 	genSeeds := []int64{0, 1, 2, 42, verifSeed() + 1000}
 	if thorough {
 		nProt = 60
-		genSeeds = append(genSeeds, 3, 4, 5, 6, 7, 8, 9, 10, 11, 12, 13, -1, 1 << 40)
+		genSeeds = append(genSeeds, 3, 4, 5, 6, 7, 8, 9, 10, 11, 12, 13, -1, 1<<40)
 	}
 	vRT := newVerifRun("C07", "transform/codon.Optimize/post/roundtrip",
 		fmt.Sprintf("25 default tables (uniform weight 1), %d tables per code re-weighted with OptimizeTable from random coding sequences (64..3200 codons, every amino acid present, random codon bias incl. unused synonyms) and %d tables with prescribed synonym counts (1:9, 2:17, 1:10, 10:1, 1000:9001, 1000:8999); proteins: every single letter of the table, lengths 1, 2, 3, 1999, 2000 and %d random lengths in 1..2000 over the table's letters, and random.ProteinSequence(n, seed) for every n in 3..200 and %d seeds (those of its outputs that are over the table's letters); checked: len = 3*len(protein), decoding with the table's own codon list and Translate both give the protein; all deep copies; non-trivial = protein length >= 2", perCode, len(boundary), nProt, len(genSeeds)))
@@ -467,7 +467,9 @@ func TestVerifC07(t *testing.T) {
 		draws = 1000000
 		propTables = append(propTables, defaults...)
 		propTables = append(propTables, boundary...)
-		propTables = append(propTables, reweighted...)
+		for i := 0; i < len(reweighted); i += 2 {
+			propTables = append(propTables, reweighted[i])
+		}
 	} else {
 		// quick: one default table per distinct shape of code, the
 		// prescribed-count tables of two codes, every third re-weighted table
@@ -483,7 +485,7 @@ func TestVerifC07(t *testing.T) {
 		}
 	}
 	vPR := newVerifRun("C07", "transform/codon.Optimize/post/proportional",
-		fmt.Sprintf("for each of %d tables (thorough: all 25 defaults, all re-weighted and prescribed-count tables; quick: defaults 1, 2, 3, 12, 22, 23, 27, 12 prescribed-count tables, every third re-weighted table) and each amino acid with >= 2 eligible codons: one protein of %d copies of that residue; the counts of the emitted codons against w/(sum of eligible w) by Pearson chi-square, rejected only below p = 1e-9 (cannot flake: < 1e-5 over the whole run); an eligible codon never drawn or an ineligible one drawn also fails; amino acids with one eligible codon are checked to use only it (trivial)", len(propTables), draws))
+		fmt.Sprintf("for each of %d tables (thorough: all 25 defaults, all prescribed-count tables, every second re-weighted table; quick: defaults 1, 2, 3, 12, 22, 23, 27, 12 prescribed-count tables, every third re-weighted table) and each amino acid with >= 2 eligible codons: one protein of %d copies of that residue; the counts of the emitted codons against w/(sum of eligible w) by Pearson chi-square, rejected only below p = 1e-9 (cannot flake: < 1e-5 over the whole run); an eligible codon never drawn or an ineligible one drawn also fails; amino acids with one eligible codon are checked to use only it (trivial)", len(propTables), draws))
 	vPR.Sampled()
 	for _, nt := range propTables {
 		for _, l := range nt.info.letters {
